@@ -24,7 +24,8 @@ FM = fn('FM', lst('LM', [mp('M1', x=plain('m1'))]))
 SUB = tmpl('sub', [T('S'), V('f3'), V('d')], {'d': plain('D')})
 SUBR = tmpl('subr', [T('S'), Return(N('f3')), T('no')], {'d': plain('D2')})
 
-NS = {'f1': F(1), 'f2': F(2), 'f3': F(3), 'fo': FO, 'fl': FL, 'fm': FM, 'sub': SUB, 'subr': SUBR,
+FMN = fn('FMN', lst('LMN', [mp('M1', x=plain('m1')), none(), mp('M3', x=plain('m3'))]))
+NS = {'fmn': FMN, 'nn': none(), 'f1': F(1), 'f2': F(2), 'f3': F(3), 'fo': FO, 'fl': FL, 'fm': FM, 'sub': SUB, 'subr': SUBR,
       'x': plain('outer-x'), 'a': plain('outer-a'), 'd': plain('outer-d'), 'y': plain('outer-y'),
       'error_type': plain('outer-et')}
 
@@ -43,6 +44,10 @@ def wrap(body, alt):
         With(N('fo'), [V('a')] + body),
         In(N('fl'), [V('x')] + body, alt),
         In(N('fm'), body + [V('x')], mapping=True),
+        # None handed to a tag that pushes a mapping: the frame is pushed (and popped) like any other
+        With(X('nn'), body, mapping=True),
+        With(X('nn'), [T('w')], mapping=True),
+        In(N('fmn'), [T('i')] + body, mapping=True),
         In(N('fl'), body, nopush=True, pre=True),
         Try(body, [(['ValueError'], alt + [V('error_type')])], None),
         Try(body, [(['KeyError'], [T('hk')]), ([], alt)], [V('f3')]),
